@@ -48,10 +48,11 @@ Section Loop.
     end.
 
   (** [slice(array, start, stop, step)]; the caller guarantees [step <> 0].
-      [len = array.len() as i32] is modelled for [length < 2^31] (hypothesis of
-      the theorems). Fuel [length + 1] always suffices (proved). *)
+      [len = array.len() as i32] is modelled for [length < 2^31]; longer arrays
+      (more than 16 GiB of pointers) are [Unmodelled]. Fuel [length + 1] always suffices (proved). *)
   Definition slice (arr : list A) (start stop : option Z) (step : Z) : res (list A) :=
     let len := zlen arr in
+    if i32_max <? len then Unmodelled else      (* [len as i32] wraps beyond 2^31-1 elements: not modelled *)
     if len =? 0 then Ok [] else
     let a := match start with
              | Some s => adjust_slice_endpoint len s step
